@@ -672,6 +672,32 @@ def run(ctx, facts):
             # agreement across the two structs is not part of the property (each is checked by the rules above on its own);
             # a one-sided, behaviour-preserving edit would differ here, so this is information only
             ctx.info("3a and 3aSha differ outside the seeding block: ProbMinHash3a has `%s` where ProbMinHash3aSha has `%s`" % (d[0][:90], d[1][:90]))
+    # ITEMLOCAL: the value an item offers to a register is a function of that item (key, weight), of its generator and of the
+    # sketcher's parameters — not of the other items of the batch (a total weight, a count, the size of the container) nor of the
+    # registers
+    ctx.rule("ITEMLOCAL", "the race value offered to a register depends only on the item at hand (its key and its weight), on the sketcher's "
+                          "parameters (hasher, sampler, m, increments, permutation generator) and on literals: nothing computed from the other "
+                          "items of the call (total weight, length of the container) nor from the registers enters it")
+    import fnmatch as _fn
+    nloc = 0
+    for (fid, _allowed) in RACE_FNS:
+        fn = facts.fn(fid)
+        sl = slicer_of(fn)
+        item = ["param #1:*", "param #2:*"] if fid.endswith("hash_item") else ["param #1:*.0", "param #1:*.1"]
+        okroots = item + ["self.b_hasher", "self.exp01", "self.m", "self.betas", "self.permut_generator", "self.to_be_processed*", "literal *",
+                          "call rand_distr::*", "call rand::*", "const rand_distr::*", "len(self.signature)",
+                          "call <sha2::*", "call sha2::*"]      # Sha512_256::new(): a fresh hasher, a constant
+        for u in self_method_calls(fn, TRACKER, ["update"]):
+            nloc += 1
+            roots = sorted({slicer.show_root(r) for r in sl.roots(u["args"][1])})
+            bad = [r for r in roots if not any(_fn.fnmatchcase(r, p_) for p_ in okroots)]
+            if bad:
+                ctx.violation("ITEMLOCAL", fid, "race value depends on %s" % bad[0], hirq.loc(u),
+                              "the value offered to the register also depends on %s: something outside the item at hand (the whole container, the registers) "
+                              "enters an item's race value, so the signature depends on how the set is cut into calls or on what was hashed before" % ", ".join(bad[:3]))
+            else:
+                ctx.ok("ITEMLOCAL", fid, "race value <- {%s}" % ", ".join(roots)[:120], hirq.loc(u))
+    ctx.floor("C02 ITEMLOCAL race values", nloc, 6)
     # ProbMinHash3 and ProbMinHash3a can only produce the same signature if their samplers have the same rate
     from . import C01 as _C01
     ctx.rule("LAMBDA", _C01.RULES["LAMBDA"])
